@@ -1594,3 +1594,154 @@ func ruleWIN1(c *Ctx) []Ob {
 	}
 	return softenUndecided(o.list)
 }
+
+// ---------------------------------------------------------------- SORT3
+
+// appendsValue: call is append(x, v) (v as the single variadic element).
+func appendsValue(call *ssa.Call, v ssa.Value) bool {
+	cc := call.Common()
+	b, ok := cc.Value.(*ssa.Builtin)
+	if !ok || b.Name() != "append" || len(cc.Args) != 2 {
+		return false
+	}
+	for _, og := range origins(cc.Args[1]) {
+		sl, ok := og.(*ssa.Slice)
+		if !ok {
+			continue
+		}
+		al, ok := sl.X.(*ssa.Alloc)
+		if !ok {
+			continue
+		}
+		for _, r := range realReferrers(al) {
+			ia, ok := r.(*ssa.IndexAddr)
+			if !ok {
+				continue
+			}
+			for _, rr := range realReferrers(ia) {
+				if st, ok := rr.(*ssa.Store); ok && st.Addr == ssa.Value(ia) && (st.Val == v || sameOrigin(st.Val, v)) {
+					return true
+				}
+			}
+		}
+	}
+	return false
+}
+
+// SORT3: the sort node sees the whole input. Its Callback appends every
+// document it is given to the node's buffer on every path that reports success
+// (no "keep only the best so far" fast path decided from limit alone: a skip
+// behind the sort still needs the others), and Finish forwards the buffer's
+// elements from a loop.
+func ruleSORT3(c *Ctx) []Ob {
+	o := newObs(c, "SORT3")
+	sp := c.LibPkgs[c.ModPath]
+	if sp == nil {
+		o.add(UNDECIDED, "sort-node", "-", "root package not loaded")
+		return o.list
+	}
+	var names []string
+	for n := range sp.Members {
+		names = append(names, n)
+	}
+	sort.Strings(names)
+	found := false
+	for _, nm := range names {
+		tn, ok := sp.Members[nm].(*ssa.Type)
+		if !ok {
+			continue
+		}
+		n, ok := tn.Type().(*types.Named)
+		if !ok {
+			continue
+		}
+		if _, isStruct := n.Underlying().(*types.Struct); !isStruct || c.nodeKind(n) != "sort" {
+			continue
+		}
+		cb := c.lookupMethod("", n.Obj().Name(), "Callback")
+		if cb == nil || !c.IsLib(cb) || recvNamed(cb) != n {
+			continue
+		}
+		found = true
+		var doc *ssa.Parameter
+		for _, p := range cb.Params {
+			if c.isDocPtr(p.Type()) {
+				doc = p
+			}
+		}
+		key := n.Obj().Name() + ".Callback/buffers every document"
+		if doc == nil {
+			o.add(UNDECIDED, key, relPath(c, cb.Pos()), "no document parameter")
+			continue
+		}
+		cut := map[*ssa.BasicBlock]bool{}
+		bufField := ""
+		for _, b := range cb.Blocks {
+			for _, in := range b.Instrs {
+				call, ok := in.(*ssa.Call)
+				if !ok || !appendsValue(call, doc) {
+					continue
+				}
+				// stored back into a field of the node
+				for _, r := range realReferrers(call) {
+					if st, ok := r.(*ssa.Store); ok && st.Val == ssa.Value(call) {
+						if _, f, nn := fieldOfAddr(st.Addr); nn != nil && types.Identical(nn, n) {
+							cut[b] = true
+							bufField = f
+						}
+					}
+				}
+			}
+		}
+		if bufField == "" {
+			o.add(VIOLATED, key, relPath(c, cb.Pos()), "the sort node's Callback never appends the document it receives to a buffer of the node")
+			continue
+		}
+		if bad := c.successWithoutCut(cb, []edge2{{nil, cb.Blocks[0]}}, cut, nil); bad != "" {
+			o.add(VIOLATED, key, relPath(c, cb.Pos()), "a path through the sort node's Callback reaches %s without appending the document to %s: the documents dropped here are missing from everything behind the sort (a skip, a second page)", bad, bufField)
+		} else {
+			o.add(OK, key, relPath(c, cb.Pos()), "every successful path appends the document to %s", bufField)
+		}
+		// Finish forwards elements of the buffer from a loop
+		key = n.Obj().Name() + ".Finish/forwards the buffer"
+		fin := c.lookupMethod("", n.Obj().Name(), "Finish")
+		if fin == nil || !c.IsLib(fin) {
+			o.add(UNDECIDED, key, "-", "Finish not found")
+			continue
+		}
+		okf := false
+		var visit func(fn *ssa.Function)
+		visit = func(fn *ssa.Function) {
+			allCalls(fn, func(call ssa.CallInstruction) {
+				if !c.isCallbackForwarder(call) || !c.inLoop(call.Block()) {
+					return
+				}
+				args := call.Common().Args
+				for _, og := range origins(args[len(args)-1]) {
+					l, ok := og.(*ssa.UnOp)
+					if !ok || l.Op != token.MUL {
+						continue
+					}
+					if ia, ok := l.X.(*ssa.IndexAddr); ok {
+						for _, bo := range origins(ia.X) {
+							if _, f, nn := fieldLoad(bo); f == bufField && nn != nil && types.Identical(nn, n) {
+								okf = true
+							}
+						}
+					}
+				}
+			})
+		}
+		visit(fin)
+		if okf {
+			o.add(OK, key, relPath(c, fin.Pos()), "Finish passes the elements of %s to the next node from a loop", bufField)
+		} else {
+			o.add(VIOLATED, key, relPath(c, fin.Pos()), "Finish does not forward the elements of %s from a loop", bufField)
+		}
+	}
+	if !found {
+		o.add(UNDECIDED, "sort-node", "-", "no plan node that sorts found")
+		return softenUndecided(o.list)
+	}
+	return o.list
+}
